@@ -20,7 +20,9 @@ ScalarFilters ==
   {F(n, <<>>) : n \in {"sort", "sort_natural", "reverse", "uniq", "compact", "first", "last", "size"}} \cup
   {F("join", <<StrV(",")>>), F("concat", <<ArrV(<<IntV(1), NilV>>)>>), F("concat", <<ArrV(<<>>)>>),
    F("slice", <<IntV(1), IntV(2)>>), F("slice", <<IntV(0 - 2), IntV(3)>>), F("slice", <<IntV(0), IntV(8)>>),
-   F("slice", <<IntV(0 - 7), IntV(2)>>), F("map", <<StrV("p")>>), F("where", <<StrV("p")>>)}
+   F("slice", <<IntV(0 - 7), IntV(2)>>), F("map", <<StrV("p")>>), F("where", <<StrV("p")>>),
+   F("push", <<IntV(9)>>), F("push", <<NilV>>), F("unshift", <<StrV("u")>>), F("pop", <<>>), F("shift", <<>>),
+   F("array_to_sentence_string", <<>>), F("array_to_sentence_string", <<StrV("or")>>)}
 ObjFilters ==
   {F(n, <<StrV(pr)>>) : n \in {"sort", "sort_natural", "compact", "map", "where"}, pr \in {"p", "q", "z"}} \cup
   {F("where", <<StrV("p"), v>>) : v \in {IntV(1), FloatV(2, 1), NilV, BoolV(FALSE), StrV("B")}} \cup
@@ -60,6 +62,11 @@ Laws == IsCase =>
         Len(Res.val.a) = Len(c.in) - Cardinality({i \in 1..Len(c.in) : IsNil(c.in[i])})
   /\ (c.f.n = "concat" /\ "val" \in DOMAIN Res) => Len(Res.val.a) = Len(c.in) + Len(c.f.a[1].a)
   /\ c.f.n = "size" => Res.val = IntV(Len(c.in))
+  \* plugin filters: push / pop and unshift / shift are inverse pairs, a sentence of at most one element has no separator
+  /\ c.f.n = "push" => ApplyArr(F("pop", <<>>), Res.val.a).val.a = c.in /\ Res.val.a[Len(Res.val.a)] = c.f.a[1]
+  /\ c.f.n = "unshift" => ApplyArr(F("shift", <<>>), Res.val.a).val.a = c.in /\ Res.val.a[1] = c.f.a[1]
+  /\ c.f.n \in {"pop", "shift"} => Len(Res.val.a) = (IF c.in = <<>> THEN 0 ELSE Len(c.in) - 1)
+  /\ (c.f.n = "array_to_sentence_string" /\ Len(c.in) <= 1) => Res.val.s = (IF c.in = <<>> THEN "" ELSE ToStr(c.in[1]))
   /\ c.f.n = "first" => Res.val = (IF c.in = <<>> THEN NilV ELSE c.in[1])
   /\ c.f.n = "last" => Res.val = (IF c.in = <<>> THEN NilV ELSE c.in[Len(c.in)])
 
